@@ -293,10 +293,16 @@ def selected (sel : Option (List String)) (l : Laser) (n : String) : Bool :=
     | none => true
     | some s => s.isEmpty || s.contains n)
 
-/-- selected elements hold the filter applied to the original field, everything else is unchanged -/
+/-- selected elements hold the filter applied to the original field, everything else is unchanged:
+`done` pairs every selected element of the image with the filter of its ORIGINAL field (each filter
+call is made once, outside the pixel function) -/
 def filterSpec (f : String → Grid Tok → Grid Tok) (sel : Option (List String)) (l : Laser) : Laser :=
+  let done : List (String × Grid Tok) :=
+    (l.elements.filter (selected sel l)).map fun n => (n, f n (l.field n))
   let get : Nat → Nat → Px := fun i j n =>
-    if selected sel l n then (f n (l.field n)).get i j else l.data.get i j n
+    match done.lookup n with
+    | some g => g.get i j
+    | none => l.data.get i j n
   { l with data := { l.data with get := get } }
 
 /-- `__main__.stack`: the arrays must have the same fields (otherwise `np.concatenate` fails);
